@@ -46,6 +46,9 @@ pub fn hash_call(log: &mut LogHash, sig: &mut LogHash, rec: &CallRec, codec: Cod
     let r = format!("{:?}", rec.result);
     log.s(&r);
     sig.s(&r);
+    if !matches!(rec.input, Input::Data(_)) {
+        log.s(&format!("{:?}", rec.input));
+    }
     if let Input::Data(d) = &rec.input {
         log.bytes(d);
         if let Ok(p) = parse_datagram(codec, d) {
